@@ -242,7 +242,7 @@ func runPipe[I, O any](o PipeOpts, inputs [][]I, build func(in []<-chan I) []<-c
 			for j, oc := range outs {
 				simrt.GoKind("cons", func() {
 					for {
-						simrt.Yield(-1, "cons-recv")
+						consYield()
 						v, ok := <-oc
 						if !ok {
 							res.Closed[j] = true
